@@ -946,7 +946,10 @@ class NumpyModel:
         return np.concatenate([self.np_asarray(x) for x in xs], axis=int(axis))
 
     def np_stack(self, xs, axis=0):
-        return np.stack([self.np_asarray(x) for x in xs], axis=int(axis))
+        arrs = [self.np_asarray(x) for x in xs]
+        if len({getattr(a, "shape", None) for a in arrs}) > 1 or not arrs:
+            raise _raise("ValueError", None, "all input arrays must have the same shape")
+        return np.stack(arrs, axis=int(axis))
 
     def np_column_stack(self, xs):
         return np.column_stack([self.np_asarray(x) for x in xs])
